@@ -26,6 +26,32 @@ ASSUMPTIONS = ["state['dependencies'][key] lists exactly the data a task consume
 LOCAL = "dask/local.py"
 
 
+def simple_scheduler_release(ctx):
+    """The single-threaded twin of the local scheduler (dask.core.get -> _task_spec.execute_graph) releases by
+    reference count.  ABS.refcount.*: counted once per consumer, decremented once per consumer, released exactly
+    at zero and never when requested; DELEG.core-get.keys: every requested key reaches execute_graph."""
+    ts = ctx.model.module("dask/_task_spec.py")
+    eg = ts.func("execute_graph")
+    inc = find("refcount[val] += 1", eg)
+    ok = len(inc) == 1
+    if ok:
+        loops = enclosing_loops(inc[0][0])
+        facts = cfg_of(eg).facts(inc[0][0])
+        ok = len(loops) == 2 and eqv(loops[0].iter, "vals") and eqv(loops[1].iter, "DependenciesMapping(dsk).values()") and not facts
+    ctx.ob("ABS.refcount.count", eg, "refcount[val] += 1 for every dependency of every node, unconditionally (also dependencies supplied through cache=)", ok, "" if ok else "dependencies that are not counted reach zero (or below) after their first consumer and are deleted while other consumers still need them")
+    dec = find("refcount[dep] -= 1", eg)
+    rel = find("del cache[dep]", eg)
+    ok = len(dec) == 1 and len(rel) == 1 and dominates(eg, dec[0][0], rel[0][0])
+    if ok:
+        guard = getattr(rel[0][0], "_parent", None)
+        ok = isinstance(guard, ast.If) and eqv(guard.test, "refcount[dep] == 0 and keys and (dep not in keys)") and eqv(enclosing_loops(dec[0][0])[0].iter, "node.dependencies")
+    ctx.ob("ABS.refcount.release", eg, "after node ran: for dep in node.dependencies: refcount[dep] -= 1; del cache[dep] iff refcount[dep] == 0 and dep is not requested", ok, "" if ok else "a result is released while consumers remain (or a requested key is released): a later task finds its input gone")
+    cg = ctx.model.module("dask/core.py").func("get")
+    eg_calls = [c for c in calls(cg, "execute_graph")]
+    ok = len(eg_calls) == 1 and kwarg(eg_calls[0], "keys") is not None and eqv(kwarg(eg_calls[0], "keys"), "set(flatten([out]))")
+    ctx.ob("DELEG.core-get.keys", cg, "core.get passes keys=set(flatten([out])): a fresh set of ALL requested keys", ok, "" if ok else "execute_graph receives an empty/partial key set (e.g. an exhausted generator): `keys` falsy disables releasing altogether, a partial set releases requested results")
+
+
 def check(ctx):
     model = ctx.model
     mod = model.module(LOCAL)
@@ -157,6 +183,7 @@ def check(ctx):
     ft = [c for c in calls(ga, "finish_task")]
     ok = len(ft) == 1 and len(ft[0].args) >= 4 and eqv(ft[0].args[3], "results")
     ctx.ob("OWN.protected-set.use", ga, "finish_task receives that set as its `results`", ok)
+    simple_scheduler_release(ctx)
 
 
 VARIANTS = [
